@@ -59,3 +59,10 @@ Theorem C04_dof_both_is_smaller : forall n_rdm n_cond,
   (dof_of BBoth n_rdm n_cond <= dof_of BRdm n_rdm n_cond)%nat /\ (dof_of BBoth n_rdm n_cond <= dof_of BPattern n_rdm n_cond)%nat.
 Proof. exact dof_both_is_smaller. Qed.
 Print Assumptions C04_dof_both_is_smaller.
+
+(* the variance of a model difference taken from the covariance across resamples is the sample variance of the per-resample
+   differences, hence non-negative *)
+Theorem C04_difference_variance_nonnegative : forall x y, length x = length y -> (2 <= length x)%nat ->
+  0 <= cov1 ROps x x + cov1 ROps y y - 2 * cov1 ROps x y.
+Proof. exact cov1_contrast_nonneg. Qed.
+Print Assumptions C04_difference_variance_nonnegative.
